@@ -42,6 +42,10 @@ CLAIMED = {
          'Claimed for the pure kernels only (the reflection-driven traversal of the unmarshaller is outside): fieldOptions.toOptionsWithContext for every option combination and dependency presence (resolved Optional equals the specification table; Range/Options/Default/FromString survive resolution), validateNumberRange/validateValueRange for every float64 (exact SMT FloatingPoint: NaN, infinities, signed zeros, subnormals) and every int64/uint64 against all open/closed combinations, validateValueInOptions over atom strings, parseNumberRange over all bracket bytes.',
          'go/ssa translation, gosym, z3 (FloatingPoint theory for comparisons); which validator the unmarshaller calls for which field, required/default handling and all format front-ends are NOT covered (reflection is not modelled); range bounds assumed non-NaN with left <= right as parseNumberRange guarantees.',
          'SSA symbolic execution + SMT (z3, exact FloatingPoint for comparisons)'),
+ 'C15': ('DESIGN.md §4 C15',
+         'Symbolic execution of the real ConsistentHash Add/AddWithReplicas/AddWithWeight/Get/Remove/removeRingNode with the hash function uninterpreted (one fresh symbolic uint64 per distinct input, so every placement and ordering of virtual nodes and probe on the ring is solver-chosen): member-only with collisions allowed; history-independence against a ring rebuilt from the resulting configuration and minimal disruption on add/remove/re-add under pairwise distinct virtual-node hashes.',
+         'go/ssa translation, gosym, z3; ring built directly with 1..2 replicas per node (the constructor forces >= 100, identical loop iterations); 2-3 string nodes, 3 operations; lang.Repr = identity on strings; sort.Slice as an oblivious compare-exchange network; relational claims assume collision-free virtual nodes (with collisions the bucket order is history-dependent by design).',
+         'SSA symbolic execution + SMT (z3), hash as uninterpreted function, bounded histories'),
 }
 
 NA = {
